@@ -19,6 +19,7 @@ NOT proved  : "no internal exception escapes from any Python expression reachabl
 import copy
 import json
 import os
+import re
 
 from vlib import leanio
 from vlib import c13lib as L
@@ -49,6 +50,7 @@ THEOREMS = [
     "C13_any_class_partial",
     "C13_reader_total",
     "C13_reader_terminates",
+    "C13_pairing",
 ]
 
 CORPUS_DIR = os.path.join(VERIF, "corpus", "C13")
@@ -265,6 +267,46 @@ def check_inject(chk, drv, classes):
     chk.units["U-errors-inject"] = {"cases": n, "sites": INJECT_SITES, "classes": len(classes)}
 
 
+# --------------------------------------------------------------------------- U-pairing
+PAIR_BASE = "pairing\n1 0 -1 imp:n=1\n2 0 1 imp:n=0\n\n1 so 5\n\nmode n\n"
+PAIR_NUCLIDES = ["1001", "8016", "92235", "92238", "6012", "7014", "26056", "13027"]
+
+
+def pairing_text(n):
+    """a material without library suffixes with n entries after its name: nuclide, fraction, nuclide, ..."""
+    words = []
+    for i in range(n):
+        words.append(PAIR_NUCLIDES[(i // 2) % len(PAIR_NUCLIDES)] if i % 2 == 0 else "0.%d" % (i + 1))
+    return PAIR_BASE + ("m1 " + " ".join(words)).rstrip() + "\n"
+
+
+def run_pairing(n):
+    obs = L.run_bundle({"main": pairing_text(n), "files": {}})
+    o = obs["normal"]
+    if o["out"] == "returns":
+        pairs = (o["sem"] or {}).get("data", {}).get("m1", {}).get("pairs")
+        return {"out": "ok", "pairs": len(pairs) if isinstance(pairs, list) else None}
+    return {"out": "error", "cls": o.get("exc", {}).get("cls")} if o["out"] == "raises" else {"out": o["out"]}
+
+
+def check_pairing(chk, drv):
+    """the model's pairing step (Gen.Errors.materialPairing) vs Material.__init__ on 1..12 entries"""
+    ns = list(range(1, 13))
+    model = drv.batch([{"pair": n} for n in ns])
+    for n, rm in zip(ns, model):
+        ri = run_pairing(n)
+        chk.note_case({"pairing": n}, True)
+        chk.traces_validated += 1
+        if ri != rm:
+            chk.disagreements_checked += 1
+            if run_pairing(n) == rm:
+                chk.count("flaky:disagreement-not-reproduced")
+                continue
+            chk.broken_obligation("correspondence", "U-pairing (Model.Errors.pairUp vs Material.__init__ on a flat entry list)",
+                                  {"impl": ri, "model": rm}, {"bundle": {"main": pairing_text(n), "files": {}}, "kind": "pairing", "entries": n})
+    chk.units["U-pairing"] = {"cases": len(ns)}
+
+
 # --------------------------------------------------------------------------- structured files (U-errors-files)
 def run_struct(case):
     return L.run_bundle(case["bundle"])
@@ -437,6 +479,144 @@ def report_violations(chk, case, verdicts):
         chk.violation(sig, what, {"bundle": small, "kind": case["kind"], "base": case.get("base"), "observed": L.run_bundle(small)})
 
 
+SYSTEMATIC = {"delete-token", "duplicate-token", "swap-adjacent", "truncate-line"}
+
+
+def zoo_cases(chk):
+    """every card family in every accepted spelling variant (tools/vlib/c13gen.py ZOO), one card per minimal valid
+    file; at EVERY word of the file: drop it (last word / a word in the middle), duplicate it, swap it with the next
+    word of another kind, cut the line there"""
+    rng = chk.rng("zoo")
+    cases, bases = [], []
+    for k, entry in enumerate(G.ZOO):
+        name, text, own = G.zoo_file(entry)
+        bases.append({"kind": "none", "base": name, "pos": None, "bundle": {"main": text, "files": {}}})
+        for pos in L.token_positions(text):
+            if k > 0 and pos[0] not in own:
+                continue
+            for kind, txt in L.token_corruptions(text, pos, rng, per_kind=chk.pick(1, 4), kinds=None if chk.thorough else SYSTEMATIC):
+                cases.append({"kind": kind, "base": name, "pos": list(pos), "bundle": {"main": txt, "files": {}}})
+    seen, out = set(), []
+    for c in cases:
+        k = c["bundle"]["main"]
+        if k not in seen:
+            seen.add(k)
+            out.append(c)
+    return bases, out
+
+
+def misread_of(bundles_obs):
+    """for bundles that read_input accepted: differences between the Spec's denotation of the text and the semantic
+    layer of the returned problem -> list (parallel to the input) of lists of (family, where, detail)"""
+    from vlib import spec, c13sem
+    from vlib.wholefile import ascii_clean
+
+    idx, texts = [], []
+    out = [[] for _ in bundles_obs]
+    for i, (b, obs) in enumerate(bundles_obs):
+        n = obs["normal"]
+        sem = n.get("sem")
+        if n["out"] != "returns" or not sem or "error" in sem or b.get("files") or L.count_inputs(b) is None:
+            continue
+        idx.append(i)
+        texts.append(ascii_clean(b["main"]))
+    dens = spec.denote_many(texts) if texts else []
+    for i, den in zip(idx, dens):
+        try:
+            out[i] = c13sem.misread(den, bundles_obs[i][1]["normal"]["sem"])
+        except (KeyError, TypeError, ValueError, IndexError) as e:
+            raise leanio.MachineryError(f"c13sem.misread failed on {bundles_obs[i][0]['main']!r}: {e!r}")
+    return out
+
+
+_NUM = r"[+-]?(\d+\.?\d*|\.\d+)([eE][+-]?\d+|[+-]\d+)?"
+
+
+def glued_word(w):
+    """a word (as MCNP splits the line: by blanks) that begins like a number but is not one number, shortcut, ZAID or
+    library identifier: `1.2.3`, `4.5.5`, `.80c`"""
+    w = w.lower()
+    if not re.match(r"[+-]?(\d|\.\d)", w):
+        return False
+    if re.fullmatch(_NUM, w) or re.fullmatch(_NUM + "m", w) or re.fullmatch(r"\d*(r|i|j|ilog|log)", w):
+        return False
+    if re.fullmatch(r"\d{4,6}\.\d{2,3}[a-z]{1,2}", w) or re.fullmatch(r"\d+[a-z]", w):  # a ZAID has at least 4 digits
+        return False
+    return True
+
+
+def misread_cause(fam, detail, text):
+    """the root cause, when it is one of the two lexer laxities that many families share: two tokens written without
+    a blank between them are read as two entries (MCNP separates entries by blanks)"""
+    if fam == "mode-particles" and sorted("".join(detail[0])) == sorted("".join(detail[1])):
+        return "particles-without-blank"
+    for line in text.split("\n")[1:]:
+        if L.is_comment_line(line):
+            continue
+        for w in re.split(r"[ \t=():#,]+", line.split("$")[0]):
+            if w and glued_word(w):
+                return "numbers-without-blank"
+    return None
+
+
+def misread_verdicts(kind, diffs, text=""):
+    if not diffs:
+        return []
+    fam, where, detail = diffs[0]
+    sig = {"mechanism": "error-policy", "corruption": kind, "class": "silently-misread", "what": fam}
+    cause = misread_cause(fam, detail, text)
+    if cause:
+        sig["cause"] = cause
+    return [(
+        sig,
+        f"read_input accepts the file without error or warning, but the returned problem does not hold what the file says: {fam} at {where}: file {detail[0]!r}, problem {detail[1:]!r}",
+    )]
+
+
+def judge_misread(chk, cases, observations):
+    """batch the Spec, confirm each difference by re-running the case in this process, shrink, report"""
+    pairs = [(c["bundle"], o) for c, o in zip(cases, observations)]
+    diffs = misread_of(pairs)
+    n = sum(1 for o in observations if o["normal"]["out"] == "returns")
+    cand = [(case, d) for case, d in zip(cases, diffs) if d]
+    # confirmation: every candidate is read again in this process; the Spec is asked once for all of them
+    again = misread_of([(case["bundle"], L.run_bundle(case["bundle"])) for case, _ in cand])
+    for (case, d), d2 in zip(cand, again):
+        kind = case["kind"] if "+" not in case["kind"] else "double"
+        if not d2 or d2[0][0] != d[0][0]:
+            chk.count("flaky:violation-not-reproduced")
+            continue
+        sig, what = misread_verdicts(kind, d2, case["bundle"]["main"])[0]
+        fam = d2[0][0]
+
+        def fails(lines, fam=fam, case=case):
+            b = {"main": "\n".join(lines) + "\n", "files": case["bundle"]["files"]}
+            o = L.run_bundle(b)
+            if L.judge(b, o, "x"):
+                return False
+            dd = misread_of([(b, o)])[0]
+            return bool(dd) and dd[0][0] == fam
+
+        store = chk.extra.setdefault("_seen_sigs", {})
+        key = canon({k: v for k, v in sig.items() if k != "corruption"})
+        bundle = case["bundle"]
+        if store.get(key, 0) < 2 and not any(all(sig.get(k) == v for k, v in f["signature"].items()) for f in chk.known):
+            store[key] = store.get(key, 0) + 1
+            from vlib.par import shrink_list
+
+            lines = bundle["main"].split("\n")
+            if lines and lines[-1] == "":
+                lines = lines[:-1]
+            if len(lines) > 1 and fails(lines):
+                lines = lines[:1] + shrink_list(lines[1:], lambda r: fails(lines[:1] + r))
+                bundle = {"main": "\n".join(lines) + "\n", "files": bundle["files"]}
+                dd = misread_of([(bundle, L.run_bundle(bundle))])[0]
+                if dd:
+                    sig, what = misread_verdicts(kind, dd, bundle["main"])[0]
+        chk.violation(sig, what, {"bundle": bundle, "kind": case["kind"], "base": case.get("base")})
+    chk.count("accepted-files-compared-with-spec", n)
+
+
 def corpus_cases():
     out = []
     if os.path.isdir(CORPUS_DIR):
@@ -484,12 +664,14 @@ def run(chk):
     if drv.ok:
         classes = check_table(chk, drv)
         check_inject(chk, drv, classes)
+        check_pairing(chk, drv)
 
     # ---- correspondence 3 + oracle on structured files
     scases = struct_cases(chk)
     sres = pmap(run_struct, scases, chunksize=4)
     smodel = drv.batch([{"items": c["items"]} for c in scases]) if drv.ok else None
     nd = 0
+    squiet = []
     for i, (case, obs) in enumerate(zip(scases, sres)):
         chk.note_case({"s": case["bundle"]["main"]}, True, sample_every=2000)
         for k in case["kind"].split("+"):
@@ -500,6 +682,7 @@ def run(chk):
         if verdicts:
             report_violations(chk, case, verdicts)
             continue  # the property itself is violated here: the rest is not compared
+        squiet.append((case, obs))
         if smodel is not None and out_of_model_scope(case["items"]):
             chk.count("skipped:out-of-model-scope (duplicate M and duplicate MT of one number)")
         elif smodel is not None:
@@ -524,6 +707,7 @@ def run(chk):
             o = obs[m]
             chk.count(f"outcome:{m}:" + (o["out"] if o["out"] != "raises" else o["exc"]["cls"]))
     chk.units["U-errors-files"] = {"cases": len(scases), "disagreements": nd}
+    judge_misread(chk, [c for c, _ in squiet], [o for _, o in squiet])
 
     # ---- oracle on token-level corruptions of the test inputs (exploration)
     bases = []
@@ -536,13 +720,27 @@ def run(chk):
             nbad += 1
     chk.count("base-files-valid", len(bases))
     chk.count("base-files-already-bad", nbad)
-    tcases = corpus_cases() + token_cases(chk, bases)
+    zbases, zcases = zoo_cases(chk)
+    zres = pmap(judge_case, zbases, chunksize=4)
+    zclean = set()
+    zdiffs = misread_of([(c["bundle"], o) for c, (o, _) in zip(zbases, zres)])
+    for c, (o, v), d in zip(zbases, zres, zdiffs):
+        if o["normal"]["out"] == "returns" and not v and not d and not o["check"]["warnings"]:
+            zclean.add(c["base"])
+        else:
+            chk.count("zoo-base-not-accepted:" + c["base"])
+    zcases = [c for c in zcases if c["base"] in zclean]
+    chk.units["malformed-stream-card-zoo"] = {
+        "families": sorted({e[0] for e in G.ZOO}), "variants": len(G.ZOO), "valid_bases": len(zclean), "cases": len(zcases),
+        "mutations": sorted(SYSTEMATIC), "level": "exploration (judged by the oracle on the real code; not a proof)",
+    }
+    tcases = corpus_cases() + zcases + token_cases(chk, bases)
     if not chk.thorough:
         # the quick tier enumerates every position too, but keeps a deterministic 60 % of the cases of the larger files
         rng = chk.rng("thin")
         keep = []
         for c in tcases:
-            if c["base"].startswith("corpus/") or len(c["bundle"]["main"]) < 700 or rng.random() < 0.6:
+            if c["base"].startswith(("corpus/", "zoo:")) or len(c["bundle"]["main"]) < 700 or rng.random() < 0.45:
                 keep.append(c)
         tcases = keep
     tres = pmap(judge_case, tcases, chunksize=16)
@@ -554,6 +752,8 @@ def run(chk):
             chk.count(f"outcome:{m}:" + (o["out"] if o["out"] != "raises" else o["exc"]["cls"]))
         if verdicts:
             report_violations(chk, case, verdicts)
+    quiet = [(c, o) for c, (o, v) in zip(tcases, tres) if not v]
+    judge_misread(chk, [c for c, _ in quiet], [o for _, o in quiet])
     chk.units["exploration-token-corruptions"] = {"base_files": len(bases), "cases": len(tcases), "level": "exploration (judged by the oracle on the real code; not a proof)"}
     chk.exhaustive = False
     chk.extra.pop("_seen_sigs", None)
@@ -577,8 +777,11 @@ def replay(chk, payload):
     obs = L.run_bundle(case["bundle"])
     chk.note_case({"t": case["bundle"]})
     chk.extra["replay_observation"] = obs
-    for sig, what in L.judge(case["bundle"], obs, kind if "+" not in kind else "double"):
-        chk.violation(sig, what, {"bundle": case["bundle"], "kind": kind, "observed": obs})
+    verdicts = L.judge(case["bundle"], obs, kind if "+" not in kind else "double")
+    if not verdicts:
+        verdicts = misread_verdicts(kind if "+" not in kind else "double", misread_of([(case["bundle"], obs)])[0], case["bundle"]["main"])
+    for sig, what in verdicts:
+        chk.violation(sig, what, {"bundle": case["bundle"], "kind": kind})
     if "items" in case:
         drv = leanio.Driver(chk, "drv_c13")
         if drv.ok:
